@@ -154,7 +154,7 @@ def _worker(args):
     agg = dict(evals=0, cases=0, states=0, transitions=0, nontrivial=set(),
                outcomes={}, violations=[], samples=[], capped=False, notes=set())
     for i, case in enumerate(mod.gen_cases(tier, seed)):
-        if i % n != w:
+        if ((i * 2654435761) >> 11) % n != w:  # deterministic scatter: balances clustered costs
             continue
         if time.time() > deadline:
             agg["capped"] = True
